@@ -143,4 +143,31 @@ func (q *ReprovideQueue) Clear() int
   modifies *
   ensures [what-clear-returned] result == $n
   ghost at call(Clear): assert(held(q.mu)); $n = $ret0
+
+# Pop: the deque and the membership trie stay in step - the prefix taken from
+# the front of the deque is the one removed from the trie and the one returned.
+func (q *prefixQueue) Pop() (bitstr.Key, bool)
+  props C19
+  ghostvar $p bitstr.Key = any
+  ghostvar $popped bool = false
+  ghostvar $unlisted bool = false
+  modifies *
+  ensures [front-of-the-deque-returned-and-unlisted] imp(result1, $popped && $unlisted && result0 == $p)
+  ensures [nothing-taken-when-empty] imp(!result1, !$popped && !$unlisted)
+  ghost at call(PopFront): $p = $ret0; $popped = true
+  ghost at before call(Remove): assert($popped && $recv == q.prefixes && $arg0 == $p); $unlisted = true
+
+# removeSuperstrings: what is removed from the deque is the key set of the
+# subtrie found under the prefix in the membership trie; -1 iff none.
+func (q *prefixQueue) removeSuperstrings(prefix bitstr.Key) int
+  props C19
+  ghostvar $found bool = false
+  ghostvar $removedSome bool = false
+  modifies *
+  ensures [minus-one-iff-no-superstring] imp(!$found, result == -1 && !$removedSome)
+  ensures [superstrings-removed-when-found] imp($found, $removedSome)
+  ghost at before call(FindSubtrie): assert($arg0 == q.prefixes && $arg1 == prefix)
+  ghost at call(FindSubtrie): $found = $ret1
+  ghost at before call(AllKeys): assert($arg0 == subtrie && $found)
+  ghost at before call(removePrefixesFromQueue): assert($found); $removedSome = true
 @*/
